@@ -26,7 +26,7 @@ Proof. intros. unfold get_tracts. destruct (cache_on st && _); cbn; auto. Qed.
 Lemma read_at_handle : forall v tl st off k,
   rbuf (snd (read_at v tl st off k)) = rbuf st /\ rerr (snd (read_at v tl st off k)) = rerr st.
 Proof.
-  intros. unfold read_at. destruct (off <? 0)%Z; [cbn; auto|]. destruct (k =? 0); [cbn; auto|].
+  intros. unfold read_at, read_at_try. destruct (off <? 0)%Z; [cbn; auto|]. destruct (k =? 0); [cbn; auto|].
   pose proof (get_tracts_handle st (Z.to_N off / tl) ((Z.to_N off + k + tl - 1) / tl + 1)) as H.
   destruct (get_tracts st (Z.to_N off / tl) ((Z.to_N off + k + tl - 1) / tl + 1)) as [[f c] st1]. cbn [snd] in H.
   destruct (c =? 0); [cbn; auto|].
